@@ -24,6 +24,7 @@ RULE = (
     "(version, flags, names, classes and serialize_handlers by item assignment, deletion, update, add). Non-trivial = history containing both 1.0- "
     "and 2.0-style requests, or a concurrent history with a preemption inside a dispatch; distinct by hash of the case (+ schedule choices)."
 )
+EXHAUSTIVE = ["all schedules with a single preemption at the first occurrence (thorough: first three) of every distinct traced source line, for the 8 workloads of sub-check 'sweep'"]
 ASSUMPTIONS = [
     "R2: the form rule is asserted for structurally valid entries; statelessness is asserted for all bodies",
     "registered callables are deterministic functions of their arguments",
@@ -148,6 +149,10 @@ def concurrent_cases(draw):
 
 
 def oracle_concurrent(case):
+    return concurrent_check(case, D.make_chooser(case["sched"]))
+
+
+def concurrent_check(case, chooser, prefixes=("C13",)):
     import jsonrpclib.config as CF
 
     texts = [[body_text(b) for b in lst] for lst in case["threads"]]
@@ -160,7 +165,7 @@ def oracle_concurrent(case):
     before, dbefore = snapshot(cfg), snapshot(CF.DEFAULT)
     got = []
     errors = []
-    sched = D.Scheduler(D.make_chooser(case["sched"]), trace_files=traced_files(), max_steps=400000)
+    sched = D.Scheduler(chooser, trace_files=traced_files(), max_steps=400000)
 
     def main():
         ths = []
@@ -186,6 +191,19 @@ def oracle_concurrent(case):
     if sched.uncaught:
         fail("C13/uncaught", "exception escaped a dispatcher thread: %r" % (sched.uncaught,))
     for i, t, out in got:
+        if "C03" in prefixes and out and expected[t]:
+            # id echo under concurrency
+            try:
+                a, b = json.loads(out), json.loads(expected[t])
+                ids_a = [o.get("id") for o in (a if isinstance(a, list) else [a]) if isinstance(o, dict)]
+                ids_b = [o.get("id") for o in (b if isinstance(b, list) else [b]) if isinstance(o, dict)]
+            except ValueError:
+                ids_a = ids_b = None
+            if ids_a != ids_b:
+                fail("C03/id-echo:concurrent", "thread d%d: response ids %r for %r; served alone the ids are %r" % (i, ids_a, t[:200], ids_b),
+                     {"schedule": sched.choices[:60]})
+        if "C13" not in prefixes:
+            continue
         if not same_reply(out, expected[t]):
             fail("C13/concurrency-dependent-reply", "thread d%d got %r for %r; a fresh dispatcher answers %r" % (i, out[:300], t[:200], expected[t][:300]),
                  {"schedule": sched.choices[:60]})
@@ -198,6 +216,67 @@ def oracle_concurrent(case):
     return Info(nt=nt, classes=["concurrent", "threads:%d" % len(texts), "v%.1f" % case["version"], "preemptions:%s" % ("0" if not sched.preemptions else "1-5" if sched.preemptions <= 5 else "6+")] + (["both-styles"] if both else []),
                 key=(repr(texts), tuple(sched.choices)),
                 sample={"threads": [[t[:100] for t in lst] for lst in texts], "schedule": sched.choices[:30], "steps": sched.steps})
+
+
+# -- single-preemption sweeps at every distinct source line (bounded-exhaustive, k=1)
+
+def _call(method, rid, v2=True, params=None, notif=False):
+    pairs = []
+    if v2:
+        pairs.append(["jsonrpc", "2.0"])
+    if not notif:
+        pairs.append(["id", rid])
+    elif not v2:
+        pairs.append(["id", None])
+    pairs.append(["method", method])
+    pairs.append(["params", params if params is not None else [rid]])
+    return ("single", ("obj", pairs))
+
+
+SWEEP_WORKLOADS = [
+    ([[_call("echo", "a1", v2=False)], [_call("echo", "b1", v2=False)]], 2.0, "funcs"),
+    ([[_call("echo", "a2", v2=False)], [_call("echo", "b2", v2=True)]], 2.0, "funcs"),
+    ([[_call("boom", "a3", v2=False)], [_call("nope", "b3", v2=True), _call("echo", "b3b", v2=False)]], 2.0, "funcs"),
+    ([[_call("boom", "a4")], [_call("echo", "b4")]], 2.0, "custom"),
+    ([[_call("nonjson", "a5")], [_call("echo", "b5", v2=False)]], 2.0, "funcs"),
+    ([[_call("boom", "a6", v2=False)], [_call("echo", "b6")]], 2.0, "instance"),
+    ([[_call("echo", "a7", v2=False)], [_call("echo", "b7", v2=False)]], 1.0, "funcs"),
+    ([[("batch", [_call("echo", "a8", v2=False)[1], _call("echo", "a8b")[1]])], [_call("two", "b8", params=[1, 2])]], 2.0, "funcs"),
+]
+
+
+def sweep_cases(tier):
+    for i in range(len(SWEEP_WORKLOADS)):
+        yield {"workload": i, "occurrences": 1 if tier == "quick" else 3}
+
+
+def make_sweep_oracle(prefixes):
+    def sweep_oracle(case):
+        threads, version, mode = SWEEP_WORKLOADS[case["workload"]]
+        base = {"threads": threads, "version": version, "jsonclass": True, "mode": mode}
+        infos = []
+
+        def run_once(chooser):
+            try:
+                return concurrent_check(base, chooser, prefixes)
+            except Exception as ex:   # Violation included: reported with its schedule below
+                return ex
+
+        n = 0
+        for pre, verdict, ch in D.single_preemption_sweep(run_once, max_points=1500, occurrences=case["occurrences"], threads=len(threads)):
+            n += 1
+            if isinstance(verdict, Exception):
+                from vlib.core import Violation
+                if isinstance(verdict, Violation):
+                    verdict.replay_case = dict(base, sched=("preempt", [list(pre[:2])] if pre else [], 0))
+                    verdict.replay_sub = "concurrent"
+                raise verdict
+            infos.append(Info(nt=pre is not None, classes=["sweep", "workload:%d" % case["workload"]],
+                              key=(case["workload"], pre[:2] if pre else None),
+                              sample={"workload": case["workload"], "preempt-at": list(pre) if pre else None}))
+        infos.append(Info(classes=["sweep-complete"], key=("sweep", case["workload"], case["occurrences"]), sample={"workload": case["workload"], "schedules": n}))
+        return Info(multi=infos)
+    return sweep_oracle
 
 
 # ---------------------------------------------------------------------------
@@ -310,6 +389,9 @@ SUBS = [
         budget={"quick": 1600, "thorough": 30000}, shards={"quick": 16, "thorough": 16},
         time_cap={"quick": 100, "thorough": 1500},
         what="2-3 dispatcher threads on one dispatcher under generated schedules (line granularity)"),
+    Sub("sweep", make_sweep_oracle(("C13",)), enumerate=sweep_cases, shards={"quick": 8, "thorough": 8},
+        time_cap={"quick": 100, "thorough": 1500},
+        what="every schedule with one preemption at a distinct source line of 8 two-thread workloads"),
     Sub("config", oracle_config, strategy=lambda tier: config_cases(),
         budget={"quick": 4000, "thorough": 60000}, shards={"quick": 4, "thorough": 8},
         what="Config.copy() independence under mutation scripts"),
